@@ -63,7 +63,7 @@ Section Spec.
     match v with
     | VLocal m =>
         match completes m with
-        | CReply => Some (false, PReply front_inst tag)
+        | CReply => Some (false, reply_payload m front_inst tag)
         | CErr => Some (true, PNone)
         | CSilent => None                  (* the front's own handler keeps the completion *)
         end
@@ -71,7 +71,7 @@ Section Spec.
     | VForward i rt m =>
         if rt then
           match completes m with
-          | CReply => Some (false, PReply i tag)
+          | CReply => Some (false, reply_payload m i tag)
           | CErr | CSilent => Some (true, PNone)   (* CSilent: the 30 s time-out *)
           end
         else Some (true, PNone)                     (* wrong service: time-out *)
